@@ -230,6 +230,18 @@ pub fn response_header(r: &Request, resp_auth: u8, options: u8) -> Vec<u8> {
     out
 }
 
+/// A response header with caller-chosen plaintext (well sealed, possibly malformed inside: empty, one byte, long).
+pub fn response_header_raw(r: &Request, body: &[u8]) -> Vec<u8> {
+    let (k, i) = resp_key_iv(r);
+    let lk = kdf16(&k, &[b"AEAD Resp Header Len Key"]);
+    let li = kdf(&i, &[b"AEAD Resp Header Len IV"]);
+    let hk = kdf16(&k, &[b"AEAD Resp Header Key"]);
+    let hi = kdf(&i, &[b"AEAD Resp Header IV"]);
+    let mut out = Aead::Aes128Gcm.seal(&lk, &li[..12], &[], &(body.len() as u16).to_be_bytes());
+    out.extend(Aead::Aes128Gcm.seal(&hk, &hi[..12], &[], body));
+    out
+}
+
 /// Strict client-side open of the response header (None = need more bytes). Returns (V, options, bytes used).
 pub fn open_response_header(r: &Request, b: &[u8]) -> Result<Option<(u8, u8, usize)>, String> {
     if b.len() < 18 {
@@ -339,6 +351,28 @@ impl Body {
         self.count = self.count.wrapping_add(1);
         out.extend(self.aead.seal(&self.key, &n, &[], payload));
         out.extend(std::iter::repeat(0xa5u8).take(padding));
+        out
+    }
+
+    /// A chunk that is well-formed on the outside and wrong inside: the size field (sealed or masked as the options say)
+    /// declares `declared(padding)` bytes to follow - the caller sees the padding this chunk draws, so it can declare less
+    /// than the padding, less than padding + tag, zero, or far more than follows - and `body` is appended as it is.
+    pub fn encode_chunk_declared(&mut self, declared: impl FnOnce(usize) -> u16, body: &[u8]) -> Vec<u8> {
+        let padding = self.next_padding();
+        let total = declared(padding);
+        let mut out = Vec::new();
+        if self.options & OPT_AUTH_LENGTH != 0 {
+            let n = Self::nonce(self.len_count, &self.len_iv);
+            self.len_count = self.len_count.wrapping_add(1);
+            out.extend(self.aead.seal(&self.len_key, &n, &[], &total.wrapping_sub(16).to_be_bytes()));
+        } else if self.options & OPT_CHUNK_MASKING != 0 {
+            let m = self.shake_u16();
+            out.extend_from_slice(&(m ^ total).to_be_bytes());
+        } else {
+            out.extend_from_slice(&total.to_be_bytes());
+        }
+        self.count = self.count.wrapping_add(1);
+        out.extend_from_slice(body);
         out
     }
 
